@@ -187,7 +187,12 @@ class ParallelTemperedChain(BaseChain):
             Dictionary of ``tk -> chains[tk].state``, where ``tk`` is the
             index of each temperature chain.
         """
-        return {tk: chain.state for tk, chain in enumerate(self.chains)}
+        state = {tk: chain.state for tk, chain in enumerate(self.chains)}
+        # the temperature ladder (and what drives it) changes when annealing
+        state['betas'] = numpy.array(self.betas, dtype=float)
+        if self.adaptive_annealer is not None:
+            state['annealer'] = copy.deepcopy(self.adaptive_annealer.state)
+        return state
 
     def set_state(self, state):
         """Sets the state of the chain using the given dict.
@@ -202,8 +207,14 @@ class ParallelTemperedChain(BaseChain):
             Dictionary of ``tk -> dict`` mapping indices of the temperature
             chains to the state they should be set to.
         """
-        for tk in state:
+        for tk in range(self.ntemps):
             self.chains[tk].set_state(state[tk])
+        if 'betas' in state:
+            self._betas[:] = state['betas']
+            for tk, chain in enumerate(self.chains):
+                chain.beta = self._betas[tk]
+        if self.adaptive_annealer is not None and 'annealer' in state:
+            self.adaptive_annealer.set_state(copy.deepcopy(state['annealer']))
 
     @property
     def hasblobs(self):
@@ -648,6 +659,14 @@ class DynamicalAnnealer:
         self._S = numpy.log(numpy.diff(1.0/betas[:-1]))
         if self._Tmax_prior:
             betas[-1] = 0.0
+
+    @property
+    def state(self):
+        """The log temperature gaps that the annealer adapts."""
+        return {'S': self._S}
+
+    def set_state(self, state):
+        self._S = state['S']
 
     def _decay(self, iteration):
         """ Vanishign decay to ensure detailed balance at later stages. Is set
